@@ -106,7 +106,13 @@ PENDING = {
 }
 NOT_APPLICABLE.update(PENDING)
 
-EXTRA_ENGINES = []
+EXTRA_ENGINES = [
+    {"name": "mir2smt", "path": "mir2smt/m2s.py", "serves_properties": ["C05", "C16"],
+     "kind_free_text": "optimized MIR of /repo's current tree (cargo +nightly rustc -Zunpretty=mir) translated path-wise to SMT-LIB2 "
+                       "bit-vectors, decided by cvc5 1.0 --solve-bv-as-int=sum (z3 as time-boxed second opinion); used for the "
+                       "loop-free divide/multiply-by-85 kernels that bit-blasting cannot decide; translator validated on every run "
+                       "against the repository's own test vectors and, when those change, against the native build"},
+]
 NOTES = ("Solver-based checking only. Exit codes of bin/check: 0 = every registered obligation discharged (all CBMC properties incl. "
          "unwinding assertions SUCCESS, vacuity witnesses reachable); 1 = a counterexample was found AND reproduced natively "
          "(VIOLATION line); 2 = inconclusive (timeout, out of memory, harness no longer compiles, counterexample did not reproduce).")
